@@ -185,9 +185,10 @@ def replay(job, o, workroot, repo):
             exe, info = native.build(repo, os.path.join(VERIF, "replay", "c08_ossps.cpp"), exe)
             if not exe:
                 return {"status": "unavailable", "detail": "replay driver did not build: " + info}
-        st, detail = native.run(exe, ["formula"], timeout=900)
-        if st == "confirmed":
-            return {"status": "confirmed", "detail": detail, "command": "c08_ossps_replay formula", "from_verifier_counterexample": False}
+        for mode in (["formula"], []):
+            st, detail = native.run(exe, mode, timeout=900)
+            if st == "confirmed":
+                return {"status": "confirmed", "detail": detail, "command": "c08_ossps_replay " + " ".join(mode), "from_verifier_counterexample": False}
         return {"status": "not-reproduced", "detail": "c08_ossps_replay formula: first sub-iteration of 3 OSSPS configurations against the formula (" + str(detail)[:120] + ")"}
     if "relaxation" in job.name:
         # resume clause: a run resumed at sub-iteration k+1 must continue the schedule of the uninterrupted run
